@@ -189,7 +189,9 @@ def build_harness(variant, sources, out, extra_flags=(), libs=(), opt="-O1"):
            "-I" + hdir, "-I" + os.path.join(VERIF, "ref")] + variant["incs"] + san + list(extra_flags)
     cmd += ["-o", out] + list(sources)
     if variant["lib"].endswith(".a"):
-        cmd += [variant["lib"]]
+        # link the objects themselves: an archive member defining crypt/crypt_r would be skipped in favour of the
+        # sanitizer runtimes' interceptors of the same name
+        cmd += variant["objs"]
     else:
         d = os.path.dirname(variant["lib"])
         cmd += [variant["lib"], "-Wl,-rpath," + d]
